@@ -83,6 +83,41 @@ def _oti_env(prog, func, loop):
     return extra_env, ["A:" + km]
 
 
+def routine_obligations(run, rid_a, rid_b, prog, f):
+    """Taylor-scheme and generator obligations for one propagation routine of rdmpropagator.py;
+    returns the number of expansion loops recognised (also used by C07 for the two routines whose
+    agreement it claims)."""
+    loops = taylor.find_taylor_loops(prog, f)
+    if not loops:
+        return 0
+    nloops = 0
+    extra_env = None
+    realnames = []
+    bad = None
+    r = _oti_env(prog, f, loops[0])
+    if r[0] is not None:
+        if isinstance(r[0], tuple):
+            bad = r[0]
+        else:
+            extra_env, realnames = r
+    if bad is not None:
+        run.obligation(rid_b, f.short, False, key="oti-" + bad[0], message=bad[1], loc=f.loc())
+        return 1
+    for nh in (False, True):
+        uses_nh = any(isinstance(n, ast.keyword) and n.arg == "has_NonHerm" for n in ast.walk(f.node))
+        if nh and not uses_nh:
+            continue
+        res = taylor.analyse(run, rid_a, prog, f, 2, branch_oracle=_nonherm(nh),
+                             expect_sources=("A:IR",), extra_env=extra_env)
+        for x in res:
+            nloops += 1
+            if x.get("failed"):
+                continue
+            _step_rule(run, prog, f, x, rid=rid_a)
+            _generator_rule(run, f, x, nh, realnames, rid=rid_b)
+    return nloops
+
+
 def check(run, prog, tier):
     run.explanation = (
         "Taylor-step recogniser on every propagation routine of rdmpropagator.py and "
@@ -108,34 +143,7 @@ def check(run, prog, tier):
     nloops = 0
     routines = [f for name, f in cls.methods.items() if name.startswith("__propagate")]
     for f in routines:
-        loops = taylor.find_taylor_loops(prog, f)
-        if not loops:
-            continue
-        extra_env = None
-        realnames = []
-        bad = None
-        r = _oti_env(prog, f, loops[0])
-        if r[0] is not None:
-            if isinstance(r[0], tuple):
-                bad = r[0]
-            else:
-                extra_env, realnames = r
-        if bad is not None:
-            run.obligation("C02-B", f.short, False, key="oti-" + bad[0], message=bad[1], loc=f.loc())
-            continue
-        for nh in (False, True):
-            uses_nh = any(isinstance(n, ast.keyword) and n.arg == "has_NonHerm" for n in ast.walk(f.node))
-            if nh and not uses_nh:
-                continue
-            rid = "C02-A"
-            res = taylor.analyse(run, rid, prog, f, 2, branch_oracle=_nonherm(nh),
-                                 expect_sources=("A:IR",), extra_env=extra_env)
-            for x in res:
-                nloops += 1
-                if x.get("failed"):
-                    continue
-                _step_rule(run, prog, f, x)
-                _generator_rule(run, f, x, nh, realnames)
+        nloops += routine_obligations(run, "C02-A", "C02-B", prog, f)
     if nloops < 11:
         raise AnalysisError("only %d Taylor loops recognised in rdmpropagator (11 confirmed)" % nloops)
     svc = prog.cls(SV)
@@ -162,7 +170,7 @@ def check(run, prog, tier):
 
 
 # ----------------------------------------------------------------------
-def _step_rule(run, prog, f, x):
+def _step_rule(run, prog, f, x, rid="C02-A"):
     """the step used is the refined step"""
     ok = True
     detail = []
@@ -180,7 +188,7 @@ def _step_rule(run, prog, f, x):
         ok = ok and good
         detail.append("%s := %s" % (s, norm(defs[0].value) if defs else "?"))
     ok = ok and len(x["steps"]) == 1
-    run.obligation("C02-A", x["construct"], ok, key="step",
+    run.obligation(rid, x["construct"], ok, key="step",
                    message="the step of the expansion must be the refined step (self.dt, or "
                            "dt = sysstep*stride with stride = Nref_max//Nref_req); found %s" % detail,
                    loc=f.loc(x["loop"]), sample={"loop": x["construct"], "step": detail})
@@ -200,8 +208,7 @@ def _linear_part(y, xname):
     return Expr([t for t in y.terms if any(f.name == xname for f in t.factors)])
 
 
-def _generator_rule(run, f, x, nonherm, realnames):
-    rid = "C02-B"
+def _generator_rule(run, f, x, nonherm, realnames, rid="C02-B"):
     xname = "x:" + x["x1"]
     i0, i1 = x["idx"]
     y = _linear_part(x["y"], xname)
